@@ -9,7 +9,15 @@ use crate::refchess::{Mv, Pos};
 use crate::{ensure, fail};
 use serde_json::json;
 
-pub const RULE: &str = "positions: root/theme/random placement followed by a weighted walk of reference-legal moves, every position on the walk is compared (engine move list vs reference legal set, flags, check verdict, staged vs full generation); 1 in 16 positions also compares every child position. Non-trivial = position in at least one special class (check, double check, pinned piece, e.p. target with a pseudo-legal capturer, castling right present, promotion available); distinct by position identity.";
+pub const RULE: &str = "positions: root/theme/random placement followed by a weighted walk of reference-legal moves, every position on the walk is compared (engine move list vs reference legal set, flags, check verdict, staged vs full generation); 1 in 16 positions also compares every child position. A 'slider_line_patterns' part enumerates every occupancy pattern of the relevant line squares of a rook / bishop / queen of the side to move on every square (107 648 patterns), builds a legal position around each and compares the move lists. Non-trivial = position in at least one special class (check, double check, pinned piece, e.p. target with a pseudo-legal capturer, castling right present, promotion available); distinct by position identity.";
+
+/// Case of the part `slider_line_patterns`: one slider line set (all its patterns are enumerated inside), or
+/// a FEN for replay.
+#[derive(serde::Serialize, serde::Deserialize, Clone, Debug)]
+pub enum PosCaseLine {
+    Line { square: u8, diagonal: bool },
+    Fen(String),
+}
 
 /// Compare one position. `src` only labels statistics.
 pub fn compare_position(p: &Pos, st: &mut Stats, src: &str, count: bool) -> Result<(), Fail> {
@@ -114,6 +122,76 @@ pub fn run(run: &mut Run) -> &'static str {
                     compare_position(&child, st, "child", true)?;
                 }
             }
+        }
+        Ok(())
+    });
+    // every occupancy pattern of every slider line, through the move generator: for a rook / bishop
+    // (every eighth pattern: queen) of the side to move on each square and each subset of the squares
+    // that matter on its lines (107 648 patterns in all), a legal position with exactly that pattern is
+    // built - blockers are pawns and knights of both colours, kings are put where they do not interfere -
+    // and its move list is compared. A single wrong entry of the attack tables shows here as a missing or
+    // an extra move.
+    let lines: Vec<PosCaseLine> = (0..64u8).flat_map(|square| [false, true].into_iter().map(move |diagonal| PosCaseLine::Line { square, diagonal })).collect();
+    run.exhaustive_part("slider_line_patterns", RULE, lines, |c: &PosCaseLine, st: &mut Stats| {
+        use crate::gen::ray;
+        use crate::refchess::{rank_of, Kind, Pc};
+        let (square, diagonal) = match c {
+            PosCaseLine::Line { square, diagonal } => (*square, *diagonal),
+            PosCaseLine::Fen(f) => {
+                return match Pos::from_fen(f) {
+                    Ok(p) if p.validate().is_ok() => compare_position(&p, st, "replay", true),
+                    _ => Ok(()),
+                };
+            }
+        };
+        let dirs: [(i32, i32); 4] = if diagonal { [(1, 1), (1, -1), (-1, 1), (-1, -1)] } else { [(1, 0), (-1, 0), (0, 1), (0, -1)] };
+        let mut mask: Vec<u8> = vec![];
+        for d in dirs {
+            let r = ray(square, d);
+            if r.len() > 1 {
+                mask.extend_from_slice(&r[..r.len() - 1]);
+            }
+        }
+        let n = mask.len();
+        for subset in 0u32..(1 << n) {
+            let mut p = Pos::empty();
+            p.white_to_move = true;
+            let h = crate::framework::hash_of(&(square, diagonal, subset));
+            let kind = if h % 8 == 0 { Kind::Q } else if diagonal { Kind::B } else { Kind::R };
+            p.board[square as usize] = Some(Pc::new(true, kind));
+            for (i, q) in mask.iter().enumerate() {
+                if subset >> i & 1 == 1 {
+                    let white = h >> (8 + i) & 1 == 1;
+                    let r = rank_of(*q);
+                    p.board[*q as usize] = Some(Pc::new(white, if r == 0 || r == 7 { Kind::N } else { Kind::P }));
+                }
+            }
+            // kings: far from the slider first, where the result is a legal position with White not in
+            // check (so that all the slider's moves are there)
+            let mut placed = false;
+            'kings: for wk in (0..64u8).rev().map(|i| (i as u64 * 37 + h) as u8 % 64) {
+                if p.board[wk as usize].is_some() || mask.contains(&wk) {
+                    continue;
+                }
+                for bk in (0..64u8).map(|i| (i as u64 * 29 + (h >> 20)) as u8 % 64) {
+                    if bk == wk || p.board[bk as usize].is_some() || mask.contains(&bk) {
+                        continue;
+                    }
+                    p.board[wk as usize] = Some(Pc::new(true, Kind::K));
+                    p.board[bk as usize] = Some(Pc::new(false, Kind::K));
+                    if p.validate().is_ok() && !p.in_check() {
+                        placed = true;
+                        break 'kings;
+                    }
+                    p.board[wk as usize] = None;
+                    p.board[bk as usize] = None;
+                }
+            }
+            if !placed {
+                st.discard();
+                continue;
+            }
+            compare_position(&p, st, "slider_line_pattern", true).map_err(|f| f.explicit(json!({"Fen": p.to_fen()})))?;
         }
         Ok(())
     });
